@@ -11,7 +11,8 @@
  * the instructions of a block in order, each with the meaning the IL reference gives it (spec/qbe_sem.h)".
  *
  * What the stub does on each call:
- *   1. records (op, class, arg pointers, argument ghost values) in rec.log[rec.n];
+ *   1. records (op, class, arg pointers, argument ghost values, result) in rec.last, and in rec.first if it is
+ *      the first instruction (units with opcode-level postconditions emit one or two instructions);
  *   2. symbolically executes the instruction on GHOST VALUES: the ghost value of a `struct value` is kept in its
  *      own u.i member (for VALUE_INTCONST that is the constant itself; for VALUE_TEMP, where the real code leaves
  *      u.name == NULL and never reads it outside emitname(), the recorder/harness stores the run-time value there);
@@ -24,7 +25,7 @@
  *   3. returns the address of the result member of a freshly allocated struct inst (as the real mkinst() does;
  *      one heap object per instruction keeps CBMC's points-to sets small: a static pool indexed by the symbolic
  *      instruction count made every later dereference a byte-extract over the whole pool, 3 M SAT variables),
- *      a VALUE_TEMP with a fresh id; the pointer is also recorded in rec.log[k].resp.
+ *      a VALUE_TEMP with a fresh id; the pointer is also recorded in the entry's resp.
  * `f` is not touched (the block list, f->lastid and "dead" blocks are the builder units' business).
  */
 #ifndef IL_REC_C
@@ -51,7 +52,8 @@ struct rec_state {
 	int nload, nstore;              /* memory accesses executed */
 	unsigned maxw;                  /* widest access in bytes */
 	u64 mem_addr, mem;              /* the one memory cell */
-	struct rec_entry log[REC_MAX];
+	struct rec_entry first, last;   /* the first and the most recent instruction (no array: a log indexed by the
+	                                   symbolic instruction count cost ~1 M SAT variables in array updates) */
 } rec;
 
 u64 nondet_rec_u64(void);
@@ -101,11 +103,9 @@ rec_funcinst(struct func *f, int op, int class, struct value *arg0, struct value
 	if (rec.n >= REC_MAX) {
 		rec.overflow = 1;
 		rec.ok = 0;
-		k = REC_MAX - 1;
-	} else {
-		k = rec.n++;
 	}
-	e = &rec.log[k];
+	k = rec.n++;
+	e = &rec.last;
 	e->op = op;
 	e->cls = class;
 	e->arg[0] = arg0;
@@ -174,6 +174,8 @@ rec_funcinst(struct func *f, int op, int class, struct value *arg0, struct value
 	} else {
 		inst->res.kind = VALUE_NONE;
 	}
+	if (k == 0)
+		rec.first = rec.last;
 	return &inst->res;
 }
 
